@@ -58,6 +58,13 @@ CHECKS = {
  "C20": ("exploration", "ground-truth frame list vs the produced WebM/Matroska file parsed with an independent EBML reader; root-cause attribution with a stand-alone copy of the pinned sample builder",
    "The real diskwriter is driven through conn.Up/UpTrack (no hooks) with hash-identified Opus/VP8/VP9/H264 frames under delivery histories (reordering, duplicates, gaps the cache can or cannot fill, seqno and timestamp wrap, sender reports at any point); every block must be byte-identical to a sent frame, unique, ordered, with non-decreasing timecodes, complete from the first keyframe when everything is recoverable, in a well-formed container that is closed on stop/departure. Held on the sessions run; open known findings: three in the pinned jech/samplebuilder dependency, three in diskwriter's time origin handling.",
    "Violations are keyed by root cause; a samplebuilder key is given only if a repaired builder on the same packets yields a clean track and the trigger fired.", "5/C20"),
+
+ "C16": ("fault_enumeration", "syscall-level crash and error enumeration with strace (SIGKILL / EIO / ENOSPC at every file syscall of one token operation) + fresh-process reload equivalence + unique-id append histories under -race",
+   "After every step of library, websocket and HTTP token histories (with external file edits) a fresh process must read what the live process honours, and revoked tokens never authorise again; concurrent conditional appenders/deleters: acknowledged appends present once in acknowledgement order, refused ones absent, stale tags refused; every file syscall of 8 operation shapes is killed on entry (old or new set, never partial) and failed with EIO/ENOSPC (live view == fresh view). Held on the histories, schedules and crash points enumerated.",
+   "Process interruption at syscall granularity only: power loss (page cache loss, write reordering) is out of reach; versions always differ in size (the property's precondition).", "5/C16"),
+ "C18": ("fault_enumeration", "racing conditional HTTP writers with unique-id appends + precondition header generator + concurrent file reader + strace crash/error enumeration of rewriteDescriptionFile",
+   "K concurrent GET/PUT-If-Match writers per object against the real server: acknowledged appends present once, refused absent, at most one success per tag, exactly one winner for If-None-Match:* creation, stale deletes refused; generated If-Match/If-None-Match values against a restricted RFC 7232 reading (HTTP and the etagMatch shim); a plain reader decodes the group file continuously while it is rewritten; every file syscall of 11 library update shapes is killed on entry / failed with EIO, ENOSPC: a fresh process sees old or new, never partial. Held on the schedules and crash points enumerated.",
+   "Process interruption at syscall granularity only; only the clear precondition cases are asserted; versions differ in size.", "5/C18"),
 }
 
 NOT_YET = "check not built yet in this session (work in progress, see DESIGN.md section 9)"
